@@ -109,6 +109,18 @@ class Program:
                 self.modules[modname] = m
                 self._index_module(m)
         self._attr_types_cache: dict[str, dict[str, str]] = {}
+        # method-less NamedTuple records are erased to the tuples they are (sa/records.py); the tables are rebuilt over the result
+        from .records import erase
+
+        from .records import value_classes
+
+        self.value_classes = value_classes(self)
+        self.erased_records = erase(self)
+        if self.erased_records:
+            self.classes = {}
+            for m in self.modules.values():
+                m.imports, m.classes, m.functions, m.consts = {}, {}, {}, {}
+                self._index_module(m)
 
     # ------------------------------------------------------------------ indexing
     def _index_module(self, m: Module) -> None:
@@ -231,6 +243,79 @@ class Program:
             if ci and meth in ci.methods:
                 return ci.methods[meth]
         return None
+
+    def public_owners(self, clsname: str) -> dict[str, list[str]]:
+        """method -> the public methods of the class on whose behalf it runs: itself when public, otherwise the public methods that reach
+        it through self-calls (an operation moved into a private helper still belongs to the operation that calls the helper)."""
+        ci = self.cls(clsname)
+        calls = {
+            m: {n.func.attr for n in ast.walk(fi.node) if isinstance(n, ast.Call) and isinstance(n.func, ast.Attribute) and dotted(n.func.value) in ("self", clsname) and n.func.attr in ci.methods}
+            for m, fi in ci.methods.items()
+        }
+        out = {}
+        for m in ci.methods:
+            if not m.startswith("_") or (m.startswith("__") and m.endswith("__")):
+                out[m] = [m]
+                continue
+            own, seen, todo = set(), {m}, [m]
+            while todo:
+                cur = todo.pop()
+                for caller, cs in calls.items():
+                    if cur in cs and caller not in seen:
+                        seen.add(caller)
+                        if caller.startswith("_") and not caller.endswith("__"):
+                            todo.append(caller)
+                        else:
+                            own.add(caller)
+            out[m] = sorted(own) or [m]
+        return out
+
+    def self_closure(self, clsname: str, meth: str) -> list[FuncInfo]:
+        """The method and every method of the class it reaches through self-calls (resolved over the MRO), callee after caller."""
+        out, seen, todo = [], set(), [meth]
+        while todo:
+            m = todo.pop(0)
+            if m in seen:
+                continue
+            seen.add(m)
+            fi = self.find_method(clsname, m)
+            if fi is None:
+                continue
+            out.append(fi)
+            for n in ast.walk(fi.node):
+                if isinstance(n, ast.Call) and isinstance(n.func, ast.Attribute) and dotted(n.func.value) in ("self", clsname):
+                    todo.append(n.func.attr)
+        return out
+
+    def param_scopes(self, clsname: str, meth: str, param: str, skip: tuple = ()) -> list[tuple[FuncInfo, str]]:
+        """(function, name) pairs: the method with its parameter, and every method it reaches through self-calls that is handed that
+        parameter unchanged, with the name it has there (a piece of the method moved into a private helper is still judged)."""
+        out, seen = [], set()
+        todo = [(meth, param)]
+        while todo:
+            m, pn = todo.pop(0)
+            if (m, pn) in seen or m in skip and out:
+                continue
+            seen.add((m, pn))
+            fi = self.find_method(clsname, m)
+            if fi is None:
+                continue
+            out.append((fi, pn))
+            for n in ast.walk(fi.node):
+                if isinstance(n, ast.Call) and isinstance(n.func, ast.Attribute) and dotted(n.func.value) in ("self", clsname) and n.func.attr not in skip:
+                    callee = self.find_method(clsname, n.func.attr)
+                    if callee is None:
+                        continue
+                    ps = [a.arg for a in callee.node.args.posonlyargs + callee.node.args.args]
+                    if ps and ps[0] in ("self", "cls") and not any(isinstance(d, ast.Name) and d.id == "staticmethod" for d in callee.node.decorator_list):
+                        ps = ps[1:]
+                    for cp, a in zip(ps, n.args):
+                        if isinstance(a, ast.Name) and a.id == pn:
+                            todo.append((n.func.attr, cp))
+                    for k in n.keywords:
+                        if k.arg and isinstance(k.value, ast.Name) and k.value.id == pn:
+                            todo.append((n.func.attr, k.arg))
+        return out
 
     def find_method_after(self, clsname: str, after: str, meth: str) -> FuncInfo | None:
         """super() lookup: first definition of meth in MRO(clsname) strictly after class `after`."""
